@@ -243,6 +243,20 @@ def P_ANY():
 
 
 # ---- data (gamma) ------------------------------------------------------------------------------------
+class _OddIndex:
+    def __getitem__(self, key):
+        raise IndexError(key)
+
+
+class _OddKey:
+    def __getitem__(self, key):
+        raise KeyError(key)
+
+    def get(self, key, default=None):
+        raise KeyError(key)
+
+
+ODD_OBJECTS = [lambda: re.match("(?P<zz>x)", "x"), _OddIndex, _OddKey]
 ABSENT = type("Absent", (), {"__repr__": lambda self: "<absent>"})()
 
 
@@ -262,6 +276,8 @@ def render_data(d: dict, shape, names: Names) -> Any:
             return names.default(shape[d["f"] - 1]["ty"])
         if a == "absent":
             return ABSENT
+        if a == "odd":
+            return ODD_OBJECTS[len(shape) % len(ODD_OBJECTS)]()
         if a == "falsy":
             return names.falsy(shape[d["f"] - 1]["ty"])
         raise ValueError(a)
